@@ -136,7 +136,12 @@ func GenMsg(r *sim.Rand, token string, o ShapeOpts) MsgSpec {
 		}
 		var data []byte
 		head := fmt.Sprintf("[%s %s %d]\r\n", token, kind, idx)
-		if text {
+		if text && r.Chance(1, 6) {
+			// the very first byte of the content is a dot (a line of its own, or the start of
+			// one): it follows the header section's CRLF in another write
+			data = append([]byte(sim.Pick(r, []string{".\r\n", ".dot first\r\n", "..\r\n"})), GenText(r, n, o.CRLFOnly)...)
+			data = append(data, head...)
+		} else if text {
 			data = append([]byte(head), GenText(r, n, o.CRLFOnly)...)
 		} else {
 			data = append([]byte(head), GenBinary(r, n)...)
